@@ -228,6 +228,9 @@ class InventoryFileReader:
                 yield buf[:pos].decode()
                 buf = buf[pos + 1 :]
                 pos = buf.find(b"\n")
+        if buf:
+            # the last line need not be terminated
+            yield buf.decode()
 
 
 @functools.lru_cache(maxsize=256)
